@@ -13,6 +13,8 @@ type Options struct {
 	MaxStmts int             // statement budget of main (default 36)
 	MaxFuncs int             // helper functions (default 4)
 	Depth    int             // expression depth (default 3)
+	MaxStructs int           // plain structs besides interface implementations (default 2)
+	MaxIfaces  int           // interfaces (default: one with probability 1/2)
 	NoLabels bool            // labelled break/continue cannot be rendered in .wz (w2parser never parses labels)
 	Exclude  map[string]bool // switches tied to known findings: see Excl* constants
 	Only     map[string]bool // when non-nil, only these statement features are generated (besides the basics)
